@@ -118,13 +118,11 @@ class Ctx:
         key = (race, tags)
         if key in self._built:
             return self._built[key]
-        src = os.path.join(REPO, "go.sum")
-        dst = os.path.join(HARNESS, "go.sum")
         try:
-            if not os.path.exists(dst) or open(src, "rb").read() != open(dst, "rb").read():
-                shutil.copyfile(src, dst)
+            from lib import gomod
+            gomod.generate(REPO, HARNESS)
         except OSError as e:
-            raise ToolFailure("cannot copy go.sum: %s" % e)
+            raise ToolFailure("cannot generate harness go.mod/go.sum: %s" % e)
         out = os.path.join(self.work, "vh-race" if race else "vh")
         cmd = ["go", "build", "-tags", tags]
         if race:
